@@ -114,6 +114,8 @@ spifconf_register_context(spif_charptr_t name, ctx_handler_t handler)
     ASSERT_RVAL(!SPIF_PTR_ISNULL(handler), (unsigned char) -1);
 
     if (strcasecmp((char *) name, "null")) {
+        /* Context IDs are 8 bits wide. */
+        REQUIRE_RVAL(ctx_idx < 255, (unsigned char) -1);
         if (++ctx_idx == ctx_cnt) {
             ctx_cnt *= 2;
             context = (ctx_t *) REALLOC(context, sizeof(ctx_t) * ctx_cnt);
@@ -151,6 +153,8 @@ unsigned char
 spifconf_register_builtin(char *name, spifconf_func_ptr_t ptr)
 {
     ASSERT_RVAL(!SPIF_PTR_ISNULL(name), (unsigned char) -1);
+    /* Built-in IDs are 8 bits wide. */
+    REQUIRE_RVAL(builtin_idx < 255, (unsigned char) -1);
 
     builtins[builtin_idx].name = (spif_charptr_t) STRDUP(name);
     builtins[builtin_idx].ptr = ptr;
